@@ -161,6 +161,8 @@ func compileNesting(c *an.Ctx, r *runnerRoles, rule string) {
 		// second idiom: the jobs are collected into a slice in compile order and linked afterwards
 		if why, ok := collectThenChain(c, ct, site, inner, isJob); ok {
 			c.OK(rule, an.Short(ct)+":linking", site.Pos(), "%s", why)
+		} else if why2, ok := tailPointerLinking(c, ct, site, inner, isJob); ok {
+			c.OK(rule, an.Short(ct)+":linking", site.Pos(), "%s", why2)
 		} else {
 			c.Und(rule, an.Short(ct)+":linking", site.Pos(), "neither loop-carried job pointers (first/last) nor a collect-then-chain construction was recognised in the commands loop: %s", why)
 		}
@@ -913,4 +915,121 @@ func collectThenChain(c *an.Ctx, ct *ssa.Function, site *ssa.Call, inner *an.Loo
 		return "the helper does not return the first element as the head", false
 	}
 	return fmt.Sprintf("every compiled job is appended once to the collected slice, which %s links pairwise in order and returns by its first element", an.Short(chainFn)), true
+}
+
+// tailPointerLinking recognises the third way of chaining the jobs: a pointer
+// to the link the next job goes into (`tail := &head; …; *tail = j; tail =
+// &j.Next`). Every φ of that pointer type takes only the address of the head
+// variable, another such φ, or &j.Next of the job just compiled; each pass of
+// the commands loop stores the compiled job through the pointer exactly once;
+// a successful return gives the head variable's content.
+func tailPointerLinking(c *an.Ctx, ct *ssa.Function, site *ssa.Call, inner *an.Loop, isJob func(ssa.Value) bool) (string, bool) {
+	isTailType := func(t types.Type) bool {
+		p1, ok := t.Underlying().(*types.Pointer)
+		if !ok {
+			return false
+		}
+		return an.TypeIs(p1.Elem(), "pkg/executor", "Job") && func() bool { _, isPtr := p1.Elem().Underlying().(*types.Pointer); return isPtr }()
+	}
+	var phis []*ssa.Phi
+	an.EachInstr(ct, func(in ssa.Instruction) {
+		if phi, ok := in.(*ssa.Phi); ok && isTailType(phi.Type()) {
+			phis = append(phis, phi)
+		}
+	})
+	if len(phis) == 0 {
+		return "no pointer to a job link is carried round the loops", false
+	}
+	var head *ssa.Alloc
+	for _, phi := range phis {
+		for _, e := range phi.Edges {
+			switch x := e.(type) {
+			case *ssa.Phi:
+				if !isTailType(x.Type()) {
+					return "the link pointer takes a value of another kind", false
+				}
+			case *ssa.Alloc:
+				if head != nil && head != x {
+					return "the link pointer starts at two different variables", false
+				}
+				head = x
+			case *ssa.FieldAddr:
+				if an.AccessPath(x).LastField() != "Next" || !isJob(x.X) {
+					return "the link pointer advances to something other than &job.Next of the job just compiled: " + an.Prov(x), false
+				}
+			default:
+				return "the link pointer takes " + an.Prov(e), false
+			}
+		}
+	}
+	if head == nil {
+		return "the link pointer never starts at a head variable", false
+	}
+	var tail *ssa.Phi
+	for _, phi := range phis {
+		if phi.Block() == inner.Header {
+			tail = phi
+		}
+	}
+	if tail == nil {
+		return "no link pointer is carried round the commands loop", false
+	}
+	ex := &an.Explorer{P: c.P, NoReturn: noReturn}
+	inner.Bound(ex)
+	ex.Atom = func(v ssa.Value) (an.AVal, bool) {
+		for _, e := range errOf(site) {
+			if v == e {
+				return an.AVal{K: an.ANil}, true
+			}
+		}
+		return an.AVal{}, false
+	}
+	ex.Effect = func(in ssa.Instruction, st *an.State) string {
+		sto, ok := in.(*ssa.Store)
+		if !ok {
+			return ""
+		}
+		if sto.Addr == ssa.Value(tail) {
+			if isJob(sto.Val) {
+				return "link(job)"
+			}
+			return "link(other)"
+		}
+		if fa, ok := sto.Addr.(*ssa.FieldAddr); ok && an.AccessPath(fa).LastField() == "Next" {
+			return "next(other)"
+		}
+		return ""
+	}
+	outs := ex.RunFrom(ct, site, nil)
+	n := 0
+	for _, o := range outs {
+		if o.End != "stop" {
+			continue
+		}
+		n++
+		if len(o.Effects) != 1 || o.Effects[0] != "link(job)" {
+			return fmt.Sprintf("a pass of the commands loop does %v instead of storing the compiled job through the link pointer once", o.Effects), false
+		}
+		if v, ok := o.PhiIn[tail]; !ok || v == "keep" {
+			return "the link pointer is not advanced on a pass", false
+		}
+	}
+	if n == 0 {
+		return "no pass of the commands loop completes", false
+	}
+	for _, ret := range an.Returns(ct) {
+		if !an.IsNilConst(an.RetVal(ret, 1)) {
+			continue
+		}
+		okRet := false
+		for _, src := range an.ResolveAll(an.RetVal(ret, 0)) {
+			if u, ok := src.(*ssa.UnOp); ok && u.Op == token.MUL && u.X == ssa.Value(head) {
+				okRet = true
+			}
+		}
+		if !okRet {
+			return "a successful return does not give the head of the chain", false
+		}
+	}
+	return "every compiled job is stored once through a pointer to the tail link, which then moves to the job's Next; the head variable is returned", true
 }
